@@ -116,6 +116,10 @@ theorem noncarrier_ignores_mode (enc : PStr) (h : isCarrier enc = false) (mode :
 example : isCarrier nLatin1 = false ∧ isCarrier nCp1252 = false := by decide +kernel
 example : convertFrom nCp1252 .xml [0x93] = some [0x201C] := of_evalsTo (by decide +kernel)
 
+/-- The three encodings the property names are in the live `ENCODINGS_WITH_SMART_QUOTES`. -/
+theorem documented_carriers_present :
+    nWindows1252 ∈ carriers ∧ nIso88591 ∈ carriers ∧ nIso88592 ∈ carriers := by decide +kernel
+
 /-- Bytes outside 0x80–0x9F are never touched by the substitution. -/
 theorem other_bytes_untouched (enc : PStr) (mode : Mode) (b : Nat) (hb : isSmart b = false) :
     convertFrom enc mode [b] = convertFrom enc .none [b] := by
@@ -196,6 +200,17 @@ theorem smart_quotes_preserve_characters (enc : PStr) (he : enc ∈ carriers) (m
   · simp only [hs, Bool.false_eq_true, if_false]
     rw [← other_bytes_untouched enc mode b (by simpa using hs)]
     exact hp
+
+/-- The observable: when the first known encoding converts the input to a non-empty string — which by
+    `carrier_conversion_total`/`smart_quotes_preserve_characters` is always the case for a carrier with a
+    mode set and non-empty input — that string is `unicode_markup`, without replacement characters, and no
+    other candidate encoding is consulted. -/
+theorem unicode_markup_is_first_conversion (enc : PStr) (rest : List PStr) (mode : Mode) (markup : Bytes) (u : PStr)
+    (h : convertFrom enc mode markup = some u) (hu : u ≠ []) :
+    unicodeMarkup (enc :: rest) mode markup = (some u, false) :=
+  unicodeMarkupWith_first liveTables enc rest mode markup u h hu
+
+example : unicodeMarkup [nWindows1252] .none [0x61, 0x81] = (some [0x61, 0xFFFD], true) := of_evalsTo (by decide +kernel)
 
 example : convertFrom nWindows1252 .html (ofS "a" ++ [0x93, 0xE9, 0x94]) =
     some (ofS "a&ldquo;" ++ [0xE9] ++ ofS "&rdquo;") := of_evalsTo (by decide +kernel)
@@ -313,10 +328,20 @@ theorem detwingle_embedded_valid (ps : List Piece)
 example : detwingle ([Piece.ch 0x61, .emb 0x93, .ch 0x20AC, .emb 0xA9].flatMap Piece.src)
     = some (utf8 [0x61, 0x201C, 0x20AC, 0xA9]) := of_evalsTo (by decide +kernel)
 
-/-- The existential notion of validity used above is the one of the executable strict decoder (which
-    the harness compares with CPython's): valid input decodes, to the scalar values it encodes. -/
-theorem valid_utf8_decodes (s : PStr) (h : ∀ c ∈ s, IsScalar c) : decodeUtf8 (utf8 s) = some s :=
-  decodeUtf8_utf8 s h
+/-- The existential notion of validity used above is exactly that of the executable strict decoder
+    (Unicode Table 3-7; the harness compares it with CPython's `bytes.decode("utf-8")`): a byte list
+    decodes to `s` iff it is the encoding of `s` and `s` consists of scalar values. -/
+theorem decodeUtf8_iff (bs : Bytes) (s : PStr) :
+    decodeUtf8 bs = some s ↔ bs = utf8 s ∧ ∀ c ∈ s, IsScalar c :=
+  ⟨decodeUtf8_sound bs s, fun ⟨h1, h2⟩ => h1 ▸ decodeUtf8_utf8 s h2⟩
+
+theorem valid_utf8_iff_decodes (bs : Bytes) : ValidUtf8 bs ↔ (decodeUtf8 bs).isSome = true := by
+  constructor
+  · rintro ⟨s, hs, rfl⟩; simp [decodeUtf8_utf8 s hs]
+  · intro h
+    obtain ⟨s, hs⟩ := Option.isSome_iff_exists.mp h
+    obtain ⟨h1, h2⟩ := decodeUtf8_sound bs s hs
+    exact ⟨s, h2, h1⟩
 
 example : decodeUtf8 [0xED, 0xA0, 0x80] = none := of_evalsTo (by decide +kernel)
 example : decodeUtf8 [0xC0, 0x80] = none := of_evalsTo (by decide +kernel)
